@@ -52,10 +52,10 @@ func runC05(r *R) {
 	r.Assume = []string{"encoding/json uses the struct tags"}
 
 	r.Rule("C05-R1", "balanceBlock: AddTrash only under !slot.want ∧ slot.repl != nil ∧ slot.repl.Mtime < bal.MinMtime; Trash{SizedDigest: blkid, Mtime: slot.repl.Mtime, From: slot.mnt} of the same slot", 1)
-	r.Rule("C05-R2", "slot.want is monotone: every store after construction stores true; the initial value is repl != nil && mnt.ReadOnly", 3)
-	r.Rule("C05-R3", "veto: slots[i].want = true under slot.repl != nil ∧ (underreplicated ∨ unsafeToDelete[slot.repl.Mtime]) runs before emission; underreplicated is only set from safe < desired and never reset", 3)
+	r.Rule("C05-R2", "slot.want is monotone: every store after construction stores true; the initial value is repl != nil && mnt.ReadOnly", 1)
+	r.Rule("C05-R3", "veto: slots[i].want = true under slot.repl != nil ∧ (underreplicated ∨ unsafeToDelete[slot.repl.Mtime]) runs before emission; underreplicated is only set from safe < desired and never reset", 1)
 	r.Rule("C05-R5", "AddPull only under slot.repl == nil ∧ slot.want ∧ !slot.mnt.ReadOnly; source is blk.Replicas[i]'s service (indexing an empty replica list panics rather than emitting a pull)", 1)
-	r.Rule("C05-R8", "per-class counters: replProt += … only under !protMnt[slot.mnt] (then marked); replWant += … only when the mount/device was not already planned", 2)
+	r.Rule("C05-R8", "per-class counters: replProt += … only under !protMnt[slot.mnt] (then marked); replWant += … only when the mount/device was not already planned", 1)
 	fn := w.Fn("(*" + kb + ".Balancer).balanceBlock")
 	if fn == nil || len(fn.Blocks) == 0 {
 		r.addS("C05-R1", "(*"+kb+".Balancer).balanceBlock", "anchor", "-", Undecided, "anchored function not found")
@@ -349,7 +349,7 @@ func runC05(r *R) {
 	}
 
 	// ---- R7
-	r.Rule("C05-R7", "wire format: keep-balance's trash/pull JSON (locator, block_mtime, mount_uuid / locator, servers, mount_uuid) equals keepstore's TrashRequest/PullRequest tags and kinds; Locator = SizedDigest[:32], BlockMtime = Mtime, MountUUID = mount UUID", 4)
+	r.Rule("C05-R7", "wire format: keep-balance's trash/pull JSON (locator, block_mtime, mount_uuid / locator, servers, mount_uuid) equals keepstore's TrashRequest/PullRequest tags and kinds; Locator = SizedDigest[:32], BlockMtime = Mtime, MountUUID = mount UUID", 2)
 	for _, spec := range []struct{ meth, ksType string }{{"(" + kb + ".Trash).MarshalJSON", ks + ".TrashRequest"}, {"(" + kb + ".Pull).MarshalJSON", ks + ".PullRequest"}} {
 		f := r.NeedFn("C05-R7", spec.meth)
 		kt := w.NamedType(spec.ksType)
